@@ -169,6 +169,19 @@ def definiteOK (v : Value) : Bool :=
        else true)
     else true
 
+/-- `p` occurs in `s` -/
+def hasSub (s p : Str) : Bool := (List.range (s.length + 1)).any fun i => (s.drop i).take p.length = p
+
+def sYear1 : Str := [48, 48, 48, 49, 45]   -- '0001-'
+
+/-- C11 ("a non-existent date yields 'not resolved', never an invalid value"): the minimum date `0001-01-01` is the
+implementation's marker for a date that does not exist, and a value computed FROM the marker (`0001-02-01` = marker plus
+one month, `0001-01-08` = marker plus a week …) is as invalid as the marker itself.  No `value` / `start` / `end` may lie
+in year 0001 unless the TIMEX itself names that year. -/
+def sentinelOK (v : Value) : Bool :=
+  let bad (o : Option Str) : Bool := match o with | some s => s.take 5 = sYear1 | none => false
+  !(bad v.value || bad v.start || bad v.stop) || hasSub v.timex [48, 48, 48, 49]
+
 def sPrefix : Str := [100, 97, 116, 101, 116, 105, 109, 101, 86, 50, 46]   -- 'datetimeV2.'
 
 /-- C11: the entity's type name equals `datetimeV2.` ++ the type of (each of) its values. -/
